@@ -105,3 +105,62 @@ def canonical_perturbation(heap, tag="canon"):
 
 def collect():
     return gc.collect()
+
+
+# --- aimed address reuse -----------------------------------------------------------------
+#
+# "Free an object, create another one, hope it lands at the same address" works only when
+# nothing else of that size class is freed or allocated in between; in a real history the
+# freed block ends up 50-130 blocks deep in the free list of its pool.  aim() digs for it:
+# it allocates filler objects with the memory layout of the object to be created until one
+# of them sits at a wanted address; the caller frees that one immediately before creating its
+# object (pymalloc's per-pool free list is LIFO, so it is the block handed out next in that
+# size class) and keeps the others alive until then.  Nothing here can make correct code fail: which
+# address an object gets is not something a program may depend on.
+
+_FILLER_TYPES = {}
+_LAYOUT_FLAGS = (1 << 3) | (1 << 4) | (1 << 14)  # MANAGED_WEAKREF, MANAGED_DICT, HAVE_GC
+
+
+def _filler_type(t):
+    """A type whose instances are allocated like instances of t (same basic size, item size,
+    pre-header and gc header), or None if none of the candidates matches."""
+    if t in _FILLER_TYPES:
+        return _FILLER_TYPES[t]
+    found = None
+    bases = (tuple,) if issubclass(t, tuple) else (object,)
+    nslots = max(0, (t.__basicsize__ - bases[0].__basicsize__) // 8)
+    for ns in ({}, {"__slots__": ()}, {"__slots__": ("__dict__",)}, {"__slots__": ("__weakref__",)},
+               {"__slots__": tuple(f"s{i}" for i in range(nslots))},
+               {"__slots__": tuple(f"s{i}" for i in range(max(0, nslots - 1))) + ("__dict__",)},
+               {"__slots__": tuple(f"s{i}" for i in range(max(0, nslots - 2))) + ("__dict__", "__weakref__")}):
+        try:
+            cand = type("_Filler", bases, dict(ns))
+        except TypeError:
+            continue
+        if (cand.__basicsize__ == t.__basicsize__ and cand.__itemsize__ == t.__itemsize__
+                and (cand.__flags__ & _LAYOUT_FLAGS) == (t.__flags__ & _LAYOUT_FLAGS)):
+            found = cand
+            break
+    _FILLER_TYPES[t] = found
+    return found
+
+
+def aim(typ, nitems, wanted, tries=3000):
+    """Find a free block at one of the addresses in `wanted` that an instance of `typ` (with
+    `nitems` items if typ is a tuple subclass) can be allocated in.  Returns (address or
+    None, held): the filler occupying the block is held[-1]; the caller executes
+    `held[-1] = None` immediately before creating its object (nothing else must be freed in
+    between: the per-pool free list is LIFO) and keeps `held` alive until then."""
+    ftype = _filler_type(typ)
+    if ftype is None or not wanted:
+        return None, [None]
+    proto = (None,) * nitems if issubclass(typ, tuple) else None
+    held = [None] * (tries + 1)
+    for k in range(tries):
+        f = ftype(proto) if proto is not None else ftype()
+        if id(f) in wanted:
+            held[-1] = f
+            return id(f), held
+        held[k] = f
+    return None, held
